@@ -47,6 +47,66 @@ pub fn entries_term(ast: &full_moon::ast::Ast) -> (String, usize, usize) {
     (term, oks, errs)
 }
 
+/// Where the pieces of code a filter comment can precede begin: the start of the first token of every
+/// statement, expression, variable, prefix/suffix, call, argument list, field, parameter, function name and
+/// body, table constructor and unary operator, and the end-of-file token (docs/src/usage/filtering.md:
+/// "filter ... the next piece of code"). Independent of selene-lib/src/ast_util/visit_nodes.rs.
+pub struct Pieces(pub std::collections::BTreeSet<usize>);
+
+macro_rules! piece_visitor {
+    ($($m:ident($t:ty),)+) => {
+        impl full_moon::visitors::Visitor for Pieces {
+            $(fn $m(&mut self, node: &$t) {
+                if let Some(p) = node.start_position() {
+                    self.0.insert(p.bytes());
+                }
+            })+
+        }
+    };
+}
+
+piece_visitor!(
+    visit_anonymous_call(full_moon::ast::FunctionArgs),
+    visit_assignment(full_moon::ast::Assignment),
+    visit_call(full_moon::ast::Call),
+    visit_do(full_moon::ast::Do),
+    visit_else_if(full_moon::ast::ElseIf),
+    visit_eof(full_moon::tokenizer::TokenReference),
+    visit_expression(full_moon::ast::Expression),
+    visit_field(full_moon::ast::Field),
+    visit_function_args(full_moon::ast::FunctionArgs),
+    visit_function_body(full_moon::ast::FunctionBody),
+    visit_function_call(full_moon::ast::FunctionCall),
+    visit_function_declaration(full_moon::ast::FunctionDeclaration),
+    visit_function_name(full_moon::ast::FunctionName),
+    visit_generic_for(full_moon::ast::GenericFor),
+    visit_if(full_moon::ast::If),
+    visit_index(full_moon::ast::Index),
+    visit_local_assignment(full_moon::ast::LocalAssignment),
+    visit_local_function(full_moon::ast::LocalFunction),
+    visit_last_stmt(full_moon::ast::LastStmt),
+    visit_method_call(full_moon::ast::MethodCall),
+    visit_numeric_for(full_moon::ast::NumericFor),
+    visit_parameter(full_moon::ast::Parameter),
+    visit_prefix(full_moon::ast::Prefix),
+    visit_return(full_moon::ast::Return),
+    visit_repeat(full_moon::ast::Repeat),
+    visit_stmt(full_moon::ast::Stmt),
+    visit_suffix(full_moon::ast::Suffix),
+    visit_table_constructor(full_moon::ast::TableConstructor),
+    visit_un_op(full_moon::ast::UnOp),
+    visit_var(full_moon::ast::Var),
+    visit_var_expression(full_moon::ast::VarExpression),
+    visit_while(full_moon::ast::While),
+);
+
+pub fn piece_starts(ast: &full_moon::ast::Ast) -> std::collections::BTreeSet<usize> {
+    use full_moon::visitors::Visitor;
+    let mut p = Pieces(Default::default());
+    p.visit_ast(ast);
+    p.0
+}
+
 const CODES: [&str; 5] = ["unused_variable", "undefined_variable", "shadowing", "empty_if", "divide_by_zero"];
 
 pub fn out_term(ds: &[CheckerDiagnostic]) -> String {
@@ -209,14 +269,22 @@ pub fn generate(seed: u64, n: usize, _thorough: bool) -> Cases {
                     gstr(dg.code), dg.primary_label.range.0, payload, gsev(d.severity), gsev(d.severity))
             }
         });
-        // every comment token of the file, wherever it is attached
+        // every comment token of the file, wherever it is attached; and which of them sit directly before a
+        // piece of code (the first token of a statement, expression, variable, call, field, parameter, ...:
+        // the harness's own walk of the tree, not selene's NodeVisitor)
+        let starts = piece_starts(&ast);
         let mut comments: Vec<(usize, usize, String)> = Vec::new();
+        let mut before_piece: Vec<(usize, usize)> = Vec::new();
         for tok in ast.tokens().chain(std::iter::once(ast.eof())) {
-            for t in tok.leading_trivia().chain(tok.trailing_trivia()) {
+            let at_piece = starts.contains(&tok.token().start_position().bytes());
+            for (leading, t) in tok.leading_trivia().map(|t| (true, t)).chain(tok.trailing_trivia().map(|t| (false, t))) {
                 match t.token_type() {
                     full_moon::tokenizer::TokenType::SingleLineComment { comment }
                     | full_moon::tokenizer::TokenType::MultiLineComment { comment, .. } => {
                         comments.push((t.start_position().bytes(), t.end_position().bytes(), comment.to_string()));
+                        if leading && at_piece {
+                            before_piece.push((t.start_position().bytes(), t.end_position().bytes()));
+                        }
                     }
                     _ => {}
                 }
@@ -224,9 +292,12 @@ pub fn generate(seed: u64, n: usize, _thorough: bool) -> Cases {
         }
         comments.sort();
         comments.dedup();
+        before_piece.sort();
+        before_piece.dedup();
         let comments_term = glist(comments.iter(), |(s, e, text)| format!("({}%N, {}%N, {})", s, e, glist(text.lines(), gcps)));
+        let pieces_term = glist(before_piece.iter(), |r| grange(*r));
         cases.push(
-            format!("CFull {} {} {} {} {}", events_term(&ast), gopt(first_code_of(&ast), grange), raw_term, imp_term, comments_term),
+            format!("CFull {} {} {} {} {} {}", events_term(&ast), gopt(first_code_of(&ast), grange), raw_term, imp_term, comments_term, pieces_term),
             json!({"kind": "end-to-end", "source": prog.src, "filters": prog.n_filters, "shapes": prog.shapes,
                    "raw_diagnostics": raw.len(), "diagnostics": imp.len(), "nontrivial": prog.n_filters > 0 && !raw.is_empty()}),
         );
